@@ -112,7 +112,7 @@ def cases(rng, big):
                 return mm.compute()
             yield f"monotone[{mname}]:{cnm}[class,{eta}]", lambda rrun=rrun: same(val(lambda: rrun(rs)), val(lambda: rrun(g(rs))))
     # --- weight scaling by an exact positive factor
-    c = rng.choice([0.25, 0.5, 2.0, 4.0, 8.0])
+    c = rng.choice([0.25, 0.5, 2.0, 4.0, 8.0, 2.0 ** -40, 2.0 ** -30, 2.0 ** 30, 2.0 ** 40])     # exact powers of two, tiny and huge totals included
     x = torch.tensor([rng.randint(-16, 16) / 8 for _ in range(n)], dtype=torch.float64)
     t = torch.tensor([rng.randint(-16, 16) / 8 for _ in range(n)], dtype=torch.float64)
     yield "weights*c:mean", lambda: same(val(lambda: F.mean(x, w)), val(lambda: F.mean(x, w * c)), 2 ** -40)
@@ -122,6 +122,31 @@ def cases(rng, big):
     yield "weights*c:binary_normalized_entropy", lambda: same(val(lambda: F.binary_normalized_entropy(p, y.double(), weight=w)), val(lambda: F.binary_normalized_entropy(p, y.double(), weight=w * c)), 2 ** -30)
     yield "weights*c:click_through_rate", lambda: same(val(lambda: F.click_through_rate(y, w)), val(lambda: F.click_through_rate(y, w * c)), 2 ** -40)
     yield "weights*c:weighted_calibration", lambda: same(val(lambda: F.weighted_calibration(p, y.double(), w)), val(lambda: F.weighted_calibration(p, y.double(), w * c)), 2 ** -40)
+    # class forms (compute() may treat small totals specially): two updates, all weights scaled by c
+    import torcheval.metrics as M2
+    cut2 = rng.randint(0, n)
+
+    def crun(cls, kw, cols, wname, wv, pos=None):
+        mm = cls(**kw)
+        for sl in (slice(0, cut2), slice(cut2, n)):
+            if sl.stop - sl.start <= 0:
+                continue
+            a = [x[sl] for x in cols]
+            if pos is not None:
+                a.insert(pos, wv[sl])
+                mm.update(*a)
+            else:
+                mm.update(*a, **{wname: wv[sl]})
+        return mm.compute()
+    for nm, cls, kw, cols, wname, pos, tol_ in (
+            ("Mean", M2.Mean, {}, [x], "weight", None, 2 ** -40),
+            ("MeanSquaredError", M2.MeanSquaredError, {}, [x, t], "sample_weight", None, 2 ** -17),
+            ("BinaryAUROC", M2.BinaryAUROC, {}, [s, y], "weight", None, 2 ** -17),
+            ("BinaryNormalizedEntropy", M2.BinaryNormalizedEntropy, {}, [p, y.double()], "weight", None, 2 ** -30),
+            ("ClickThroughRate", M2.ClickThroughRate, {}, [y], None, 1, 2 ** -17),
+            ("WeightedCalibration", M2.WeightedCalibration, {}, [p, y.double()], None, 2, 2 ** -30)):
+        yield f"weights*c:{nm}[class]", lambda cls=cls, kw=kw, cols=cols, wname=wname, pos=pos, tol_=tol_: same(
+            val(lambda: crun(cls, kw, cols, wname, w, pos)), val(lambda: crun(cls, kw, cols, wname, w * c, pos)), tol_)
     # --- duplication of the whole data set (ratio metrics)
     def dup(z):
         return torch.cat([z, z])
